@@ -605,6 +605,9 @@ pub enum REv {
     Arrive { ip: u8, node: u8, kind: u8 },
     /// the handler expects (or no longer expects) a response from that source: exemption on / off
     Expect { ip: u8, on: bool },
+    /// the node awaits something from ANOTHER port of that IP (an exemption for ip:30304; the judged
+    /// datagrams come from ip:30303 and are not covered by it)
+    ExpectOtherPort { ip: u8, on: bool },
     PermitIp { ip: u8, on: bool },
     BanIp { ip: u8, on: bool },
     PermitNode { node: u8, on: bool },
@@ -672,6 +675,12 @@ async fn run_recv_async(c: &RecvCase, rep: &mut CaseReport) {
                 let src = SocketAddr::new(ip_of(ip), 30303);
                 let mut m = r.expected_responses.write();
                 if on { m.insert(src, 1); } else { m.remove(&src); }
+            }
+            REv::ExpectOtherPort { ip, on } => {
+                let other = SocketAddr::new(ip_of(ip), 30304);
+                let mut m = r.expected_responses.write();
+                if on { m.insert(other, 1); } else { m.remove(&other); }
+                rep.class("receive-path/exemption-for-another-port-of-a-source-ip");
             }
             REv::PruneTick => {
                 tokio::time::sleep(Duration::from_secs(30)).await;
@@ -804,6 +813,7 @@ fn recv_strategy(max: usize) -> BoxedStrategy<RecvCase> {
     let ev = prop_oneof![
         24 => (0u8..3, 0u8..4, prop_oneof![4 => Just(0u8), 4 => Just(1u8), 1 => Just(2u8), 1 => Just(3u8)]).prop_map(|(ip, node, kind)| REv::Arrive { ip, node, kind }),
         2 => (0u8..3, any::<bool>()).prop_map(|(ip, on)| REv::Expect { ip, on }),
+        2 => (0u8..3, prop_oneof![3 => Just(true), 1 => Just(false)]).prop_map(|(ip, on)| REv::ExpectOtherPort { ip, on }),
         1 => (0u8..3, any::<bool>()).prop_map(|(ip, on)| REv::PermitIp { ip, on }),
         1 => (0u8..3, any::<bool>()).prop_map(|(ip, on)| REv::BanIp { ip, on }),
         1 => (0u8..4, any::<bool>()).prop_map(|(node, on)| REv::PermitNode { node, on }),
